@@ -4,6 +4,7 @@ package c01
 import (
 	"context"
 	"fmt"
+	"math"
 	goerrors "github.com/ajitpratap0/GoSQLX/pkg/errors"
 	"os"
 	"path/filepath"
@@ -247,6 +248,17 @@ func tokenTypes() []models.TokenType {
 		seen[s] = true
 		out = append(out, t)
 	}
+	// the type is a plain int: values no constant names (negative, just past the largest, in a gap, huge) can stand in
+	// a hand-built token all the same
+	maxNamed := 0
+	for _, t := range out {
+		if int(t) > maxNamed {
+			maxNamed = int(t)
+		}
+	}
+	for _, v := range []int{-1, -7, math.MinInt64, maxNamed + 1, maxNamed + 2, 9999, 1 << 40, math.MaxInt64} {
+		out = append(out, models.TokenType(v))
+	}
 	return out
 }
 
@@ -258,6 +270,7 @@ var coreTypes = []models.TokenType{
 	models.TokenTypeUnion, models.TokenTypeExists, models.TokenTypeInsert, models.TokenTypeInto, models.TokenTypeValues, models.TokenTypeUpdate, models.TokenTypeSet,
 	models.TokenTypeDelete, models.TokenTypeOrder, models.TokenTypeBy, models.TokenTypeGroup, models.TokenTypeLBracket, models.TokenTypeRBracket, models.TokenTypeDoubleColon,
 	models.TokenTypePeriod, models.TokenTypeMinus, models.TokenTypeCast, models.TokenTypeArray, models.TokenTypeMerge, models.TokenTypeCreate,
+	models.TokenType(-7), models.TokenType(1 << 40),
 }
 
 func mkTok(t models.TokenType, variant int) token.Token {
@@ -296,7 +309,7 @@ func Check() *common.Check {
 			return class
 		},
 		Rule: "(1) all strings of <=3 (quick) / <=4 (thorough) fragments over lexgen's 37-fragment lexical alphabet and over a 14-fragment hostile alphabet (invalid UTF-8, NUL, letters whose upper case has another byte length, quote openers, injection snippets), and all character strings up to length 5..9 (+1 thorough) over six delimiter families (dollar quoting, quotes and backslash, comment marks, bracket / back-tick identifiers, mixed), bare and inside a SELECT; " +
-			"(2) all lexeme sequences of length <=3 (quick) / <=4 (thorough, reduced alphabet) over a 60-lexeme keyword/operator/literal alphabet; (3) all parser-token sequences of length <=2 over every token type the library names, and <=3 over 50 core types, " +
+			"(2) all lexeme sequences of length <=3 (quick) / <=4 (thorough, reduced alphabet) over a 60-lexeme keyword/operator/literal alphabet; (3) all parser-token sequences of length <=2 over every token type the library names plus 8 values no constant names (negative, past the largest, huge), and <=3 over 50 core types plus two unnamed values, " +
 			"each with and without a trailing EOF token (length-3 slices without EOF: thorough only) and with empty literals, x position mappings shorter / equal / longer than the token slice; (4) every token prefix of every distinct sqlgen statement, every byte prefix (step 1 quick up to 600 bytes) of every corpus file, " +
 			"every single-token deletion / duplication / replacement by 12 hostile tokens of a spread of statements; (5) a length ladder (every lexeme length 0..160/600 in 12 error templates and as token literals), a depth ladder (13 nesting / chaining constructs at every depth 1..110) and 12 saturation histories of 2200 distinct unexpected-token texts each (with / without a keyword suggestion, mixed in both orders) through the process-wide suggestion cache; (6) after-failure histories: every rejected single-token deletion of every representative expression statement (strict, validating, recovering and formatting calls) followed in the same process - one P, collector off, pools emptied first - by every representative expression statement. Each input goes through every public entry point (about 60 for text, incl. every dialect and strict mode; on success also serialisers, extractors, scanner, traversal). " +
 			"Oracle: the call returns; no panic reaches the caller; the worker process does not die and does not go silent. distinct = distinct input; non-trivial = the input is accepted by the default parser, so the tree consumers run too",
